@@ -6,6 +6,8 @@
    step (CPin h o) is by definition step (CRpcPin (pin_with_opts h o)); path calls reduce to CID calls. *)
 From V Require Import Base.Common Model.C03_Alloc Model.C04_ClusterOps Proofs.C04_ClusterOps Model.C04_Check Proofs.C04_Check.
 From V Require Import Proofs.C03_Monitor Proofs.C04_Monitor.
+From V Require Import Model.C04_Guards Gen.C04Guards Proofs.C04_Guards.
+From Coq Require Import String.
 From Coq Require Import Permutation.
 Open Scope Z_scope.
 
@@ -292,6 +294,44 @@ Proof. exact (fun H T M => conj (fun ex Ex I1 I2 Ne => alloc_clause_identical c 
                (conj (fun Hid Ne Ev => alloc_clause_explicit c e st p0 s H T M Hid Ne Ev)
                      (fun Ex Pa Hm Vf => alloc_clause_first c e st p0 s H T M Ex Pa Hm Vf))). Qed.
 Print Assumptions alloc_clause_readings.
+
+(* ---- the guard chains: source = model, model chains = step ---- *)
+(* the ordered guard / effect / call steps of setupReplicationFactor (+ isReplicationFactorValid), checkPinType, setupPin, pin,
+   Unpin and PinUpdate, translated from cluster.go and cluster_config.go at this run (Gen/C04Guards.v), are the model's lists *)
+Theorem c04_guards_source_is_model : gen_guard_table = model_guard_table.
+Proof. exact c04_guards_source_is_model_l. Qed.
+Print Assumptions c04_guards_source_is_model.
+
+(* interpreting the model's lists for pin() (with setupPin, setupReplicationFactor, checkPinType called as the lists say) decides
+   exactly as pin_core: every refusal is pin_core's refusal with the pinset unchanged, the redirect is the PinUpdate redirect,
+   a commit logs the pin the interpretation ends with *)
+Theorem c04_pin_guards_are_step c e ord st p bl :
+  let r := run_pin (pin_ctx c e ord st p bl) in
+  match fst r with
+  | Done (Refuse cls) => exists er, err_of_class cls = Some er /\ pin_core c e ord st p bl = (RErr er, st)
+  | Done (Redirect f) => f = "PinUpdate"%string /\ exists u, o_update (p_opts p) = Some u /\ (u =? p_cid p)%N = false
+                         /\ pin_core c e ord st p bl = pin_update_op c e st u (p_cid p) (p_opts p)
+  | Done (Commit op) => op = "LogPin"%string /\ pin_core c e ord st p bl = (ROk (x_pin (snd r)), log_pin st (x_pin (snd r)))
+  | _ => False end.
+Proof. exact (run_pin_spec c e ord st p bl). Qed.
+Print Assumptions c04_pin_guards_are_step.
+
+Theorem c04_unpin_guards_are_step c e st h :
+  match fst (run_unpin (unpin_ctx c e st h)) with
+  | Done (Refuse cls) => exists er, err_of_class cls = Some er /\ unpin_op c e st h = (RErr er, st)
+  | Done (Commit op) => op = "LogUnpin"%string /\ exists p st', aget h st = Some p /\ unpin_op c e st h = (ROk p, st')
+  | _ => False end.
+Proof. exact (run_unpin_spec c e st h). Qed.
+Print Assumptions c04_unpin_guards_are_step.
+
+Theorem c04_update_guards_are_step c e st f t o :
+  match fst (run_update (update_ctx c e st f o)) with
+  | Done (Refuse cls) => exists er, err_of_class cls = Some er /\ pin_update_op c e st f t o = (RErr er, st)
+  | Done (Commit op) => op = "LogPin"%string /\ exists ex, aget f st = Some ex
+        /\ pin_update_op c e st f t o = (ROk (updated_pin (e_now e) ex f t o), log_pin st (updated_pin (e_now e) ex f t o))
+  | _ => False end.
+Proof. exact (run_update_spec c e st f t o). Qed.
+Print Assumptions c04_update_guards_are_step.
 
 (* non-vacuity: the history of c04_example satisfies every guard; the monitor accepts the model's answer to a re-pin with a
    metadata key removed and rejects the same answer with the old metadata left in place (the shape of S4) *)
